@@ -379,6 +379,16 @@ Definition acc_z_index_batched (zl : nat) (chunks : list (nat * nat)) : list nat
   flat_map (fun c => map (fun i => i mod zl) (seq 0 (snd c))) chunks.
 Definition acc_z_index_serial (zl n : nat) : list nat := map (fun i => i mod zl) (seq 0 n).
 
+(* evaluator/default.rs evaluate_fragment_main / evaluate_fragment_full: row i of the fragment (off, len) is step off + i of
+   the constraint-evaluation domain; PeriodicValueTable::get_row(r) returns row r mod table_len (table_len = longest cycle *
+   ce blowup).  [periodic_rows_fragmented] = the code (global step), [periodic_rows_local] = a lookup with the fragment-local
+   row i (what seeded change C14-r3prover3 does), [periodic_rows_serial] = one fragment. *)
+Definition periodic_rows_fragmented (table_len : nat) (frags : list (nat * nat)) : list nat :=
+  flat_map (fun c => map (fun i => (fst c + i) mod table_len) (seq 0 (snd c))) frags.
+Definition periodic_rows_local (table_len : nat) (frags : list (nat * nat)) : list nat :=
+  flat_map (fun c => map (fun i => i mod table_len) (seq 0 (snd c))) frags.
+Definition periodic_rows_serial (table_len n : nat) : list nat := map (fun i => i mod table_len) (seq 0 n).
+
 (* ---------------------------------------------------------------- proof-of-work nonce *)
 Section Nonce.
 Variable leading_zeros : nat -> nat.      (* public_coin.check_leading_zeros(nonce) for the current seed *)
